@@ -133,7 +133,11 @@ impl<T: Value> ErasedObserver for InternalObserver<T> {
             Disallowed | Unlinked => Ok(()),
             Created | InUse => {
                 // delete from the list in either case
-                self.on_update_handlers.borrow_mut().remove(&token);
+                let removed = self
+                    .on_update_handlers
+                    .borrow_mut()
+                    .remove(&token)
+                    .is_some();
 
                 match self.state.get() {
                     Created => {
@@ -142,8 +146,10 @@ impl<T: Value> ErasedObserver for InternalObserver<T> {
                     }
                     InUse => {
                         let observing = self.observing_erased();
-                        let num = observing.num_on_update_handlers();
-                        num.increment();
+                        if removed {
+                            let num = observing.num_on_update_handlers();
+                            num.decrement();
+                        }
                         Ok(())
                     }
                     _ => unreachable!(),
